@@ -55,3 +55,9 @@ claim("C19", "exploration", "exhaustive enumeration of label strings, line seque
       "from a 26-line alphabet through parse_fr3d_output; every DSSR document with <=2 pairs and <=1 stack over the stated name and LW alphabets: "
       "never raises, certain labels filed exactly, underivable labels kept as 'other', malformed lines skipped, DSSR pairs/stacks kept exactly when resolvable and valid.",
       "Grammar in mc/ref/refadapter.py written from the property text; ambiguous labels (e.g. 's55a', 'S55') only have to yield exactly one interaction.", "DESIGN.md 3/C19")
+
+claim("C09", "model_checking", "transition-system closure (BFS) over the real write/parse functions from every deviation-bounded start table, invariant checked in every state, plus independent column reader",
+      "From every start table within 2 field deviations (thorough: 3 over layout-critical fields) of the base table, in both start formats, all chains of "
+      "write_pdb/parse_pdb_atoms/write_cif/parse_cif_atoms up to depth 2 (quick) / 3 (thorough) reach only states whose PDB view equals the start table; "
+      "every written PDB text obeys the 80-column layout, MODEL/ENDMDL bracketing and TER-after-every-chain.",
+      "Independent emitters and column reader in mc/enumio.py; values are within PDB field widths.", "DESIGN.md 3/C09")
